@@ -253,6 +253,7 @@ class Equalizer(object):
             except mp.queues.Empty:
                 if not self._compare_process.is_alive():
                     self._compare_process = None
+                    self._reset_worker_communication()
                     raise Exception("playback process have died")
 
         if timed_out:
@@ -272,7 +273,21 @@ class Equalizer(object):
                 # Don't fail when could not kill
                 _logger.warning(u'Error while killing worker, {}'.format(str(ex)))
         self._compare_process = None
+        self._reset_worker_communication()
         raise Exception("timeout while running recording playback and comparison")
+
+    def _reset_worker_communication(self):
+        """
+        Replaces the queues and event shared with a worker that was killed or has died. Such a worker may have left a
+        stale task or a stale result behind (e.g. an answer that arrived right after we gave up waiting for it), which
+        would be attributed to the next recording, or may have died while holding one of their internal locks
+        """
+        for stale_queue in (self._compare_tasks, self._compare_results):
+            stale_queue.close()
+            stale_queue.cancel_join_thread()
+        self._compare_tasks = mp.Queue()
+        self._compare_results = mp.Queue()
+        self._terminate_process = mp.Event()
 
     def _kill_compare_process(self):
         """
